@@ -58,3 +58,117 @@ package grpchan
 //@   ensures[C15] every_registration_reported: forall k string :: forall j int :: has(m, k) ==> info_ok(result, m[k].desc, j)
 //@   ensures[C15] snapshot_is_fresh: fresh(result)
 //@   modifies nothing
+
+// ---- C17: client interceptors (intercept.go) ----
+//
+//@ define client_conn_of(c) = ite(typeis(c, "*grpc.ClientConn"), unbox(c, "*grpc.ClientConn"), nil)
+//
+//@ func InterceptClientConn
+//@   ensures[C17] no_interceptors_returns_original: unaryInt == nil && streamInt == nil ==> result == ch
+//@   ensures[C17] otherwise_a_fresh_wrapper: !(unaryInt == nil && streamInt == nil) ==> typeis(result, "*interceptedChannel") && fresh(unbox(result, "*interceptedChannel"))
+//@   ensures[C17] wrapper_holds_the_three: !(unaryInt == nil && streamInt == nil) ==> unbox(result, "*interceptedChannel").ch == ch && unbox(result, "*interceptedChannel").unaryInt == unaryInt && unbox(result, "*interceptedChannel").streamInt == streamInt
+//@   modifies nothing
+//
+//@ func InterceptChannel
+//@   ensures[C17] same_as_InterceptClientConn: calls(InterceptClientConn) == 1 && result == lastresult(InterceptClientConn)
+//@   assert_call[C17] InterceptClientConn : arg0 == ch && arg1 == unaryInt && arg2 == streamInt
+//@   modifies nothing
+//
+//@ func (*interceptedChannel).Unwrap
+//@   ensures[C17] unwraps_to_the_wrapped_channel: result == intch.ch
+//@   modifies nothing
+//
+//@ func unwrap
+//@   loop loop#1 invariant[C17] same_root: root_of(ch) == root_of(ch$entry)
+//@   ensures[C17] complete: !implements(result, "WrappedClientConn") && result == root_of(ch$entry)
+//@   modifies nothing
+//
+//@ func (*interceptedChannel).Invoke
+//@   ensures[C17] no_interceptor_goes_straight_through: old(intch.unaryInt) == nil ==> calls("grpc.ClientConnInterface.Invoke") == 1 && !called("grpc.UnaryClientInterceptor") && result == lastresult("grpc.ClientConnInterface.Invoke")
+//@   ensures[C17] interceptor_sees_the_call_once: old(intch.unaryInt) != nil ==> calls("grpc.UnaryClientInterceptor") == 1 && !called("grpc.ClientConnInterface.Invoke") && result == lastresult("grpc.UnaryClientInterceptor")
+//@   assert_call[C17] grpc.ClientConnInterface.Invoke : passthrough_unchanged: arg0 == intch.ch && arg1 == ctx && arg2 == methodName && arg3 == req && arg4 == resp && arg5 == opts
+//@   assert_call[C17] grpc.UnaryClientInterceptor : arguments_unchanged: arg0 == ctx && arg1 == methodName && arg2 == req && arg3 == resp && arg6 == opts
+//@   assert_call[C17] grpc.UnaryClientInterceptor : connection_is_the_root_grpc_conn: arg4 == client_conn_of(root_of(intch.ch))
+//@   assert_call[C17] grpc.UnaryClientInterceptor : invoker_continues_to_the_wrapped_channel: isbound(arg5, "unaryInvoker") && binding(arg5, 0) == intch
+//@   modifies everything
+//
+//@ func (*interceptedChannel).unaryInvoker
+//@   ensures[C17] one_call_to_the_wrapped_channel: calls("grpc.ClientConnInterface.Invoke") == 1 && result == lastresult("grpc.ClientConnInterface.Invoke")
+//@   assert_call[C17] grpc.ClientConnInterface.Invoke : unchanged: arg0 == intch.ch && arg1 == ctx && arg2 == methodName && arg3 == req && arg4 == resp && arg5 == opts
+//@   modifies everything
+//
+//@ func (*interceptedChannel).NewStream
+//@   ensures[C17] no_interceptor_goes_straight_through: old(intch.streamInt) == nil ==> calls("grpc.ClientConnInterface.NewStream") == 1 && !called("grpc.StreamClientInterceptor") && result0 == lastresult("grpc.ClientConnInterface.NewStream", 0) && result1 == lastresult("grpc.ClientConnInterface.NewStream", 1)
+//@   ensures[C17] interceptor_sees_the_call_once: old(intch.streamInt) != nil ==> calls("grpc.StreamClientInterceptor") == 1 && !called("grpc.ClientConnInterface.NewStream") && result0 == lastresult("grpc.StreamClientInterceptor", 0) && result1 == lastresult("grpc.StreamClientInterceptor", 1)
+//@   assert_call[C17] grpc.ClientConnInterface.NewStream : passthrough_unchanged: arg0 == intch.ch && arg1 == ctx && arg2 == desc && arg3 == methodName && arg4 == opts
+//@   assert_call[C17] grpc.StreamClientInterceptor : arguments_unchanged: arg0 == ctx && arg1 == desc && arg3 == methodName && arg5 == opts
+//@   assert_call[C17] grpc.StreamClientInterceptor : connection_is_the_root_grpc_conn: arg2 == client_conn_of(root_of(intch.ch))
+//@   assert_call[C17] grpc.StreamClientInterceptor : streamer_continues_to_the_wrapped_channel: isbound(arg4, "streamer") && binding(arg4, 0) == intch
+//@   modifies everything
+//
+//@ func (*interceptedChannel).streamer
+//@   ensures[C17] one_call_to_the_wrapped_channel: calls("grpc.ClientConnInterface.NewStream") == 1 && result0 == lastresult("grpc.ClientConnInterface.NewStream", 0) && result1 == lastresult("grpc.ClientConnInterface.NewStream", 1)
+//@   assert_call[C17] grpc.ClientConnInterface.NewStream : unchanged: arg0 == intch.ch && arg1 == ctx && arg2 == desc && arg3 == methodName && arg4 == opts
+//@   modifies everything
+
+// ---- C16: server interceptors (intercept.go) ----
+//
+//@ define unary_wrapped(h, u, orig) = isfunc(h, "InterceptServer.field:Handler#1") && *binding(h, 0, "*grpc.UnaryServerInterceptor") == u && *binding(h, 1, "*grpc.methodHandler") == orig
+//@ define stream_wrapped(h, s, orig, name, cs, ss) = isfunc(h, "InterceptServer.field:Handler#2") && *binding(h, 0, "*grpc.StreamServerInterceptor") == s && *binding(h, 2, "*grpc.StreamHandler") == orig && (*binding(h, 1, "**grpc.StreamServerInfo")).FullMethod == name && (*binding(h, 1, "**grpc.StreamServerInfo")).IsClientStream == cs && (*binding(h, 1, "**grpc.StreamServerInfo")).IsServerStream == ss
+//
+//@ func InterceptServer
+//@   ensures[C16] no_interceptors_returns_original: unaryInt$entry == nil && streamInt$entry == nil ==> result == svcDesc
+//@   ensures[C16] otherwise_a_fresh_description: !(unaryInt$entry == nil && streamInt$entry == nil) ==> fresh(result) && result.ServiceName == old(svcDesc.ServiceName) && result.HandlerType == old(svcDesc.HandlerType) && result.Metadata == old(svcDesc.Metadata)
+//@   ensures[C16] unary_untouched_without_unary_interceptor: unaryInt$entry == nil && streamInt$entry != nil ==> result.Methods == old(svcDesc.Methods)
+//@   ensures[C16] streams_untouched_without_stream_interceptor: streamInt$entry == nil && unaryInt$entry != nil ==> result.Streams == old(svcDesc.Streams)
+//@   loop loop#1 invariant[C16] len(intercepted.Methods) == len(svcDesc.Methods) && fresh_backing(intercepted.Methods) && unaryInt == unaryInt$entry && unaryInt$entry != nil
+//@   loop loop#1 invariant[C16] names_so_far: forall j int :: 0 <= j && j <= rangeindex ==> intercepted.Methods[j].MethodName == svcDesc.Methods[j].MethodName
+//@   loop loop#1 invariant[C16] w1: forall j int :: 0 <= j && j <= rangeindex ==> isfunc(intercepted.Methods[j].Handler, "InterceptServer.field:Handler#1")
+//@   loop loop#1 invariant[C16] w2: forall j int :: 0 <= j && j <= rangeindex ==> *binding(intercepted.Methods[j].Handler, 0, "*grpc.UnaryServerInterceptor") == unaryInt$entry
+//@   loop loop#1 invariant[C16] w3: forall j int :: 0 <= j && j <= rangeindex ==> *binding(intercepted.Methods[j].Handler, 1, "*grpc.methodHandler") == svcDesc.Methods[j].Handler
+//@   loop loop#2 invariant[C16] len(intercepted.Streams) == len(svcDesc.Streams) && fresh_backing(intercepted.Streams) && streamInt == streamInt$entry && streamInt$entry != nil
+//@   loop loop#2 invariant[C16] s_names: forall j int :: 0 <= j && j <= rangeindex#2 ==> intercepted.Streams[j].StreamName == svcDesc.Streams[j].StreamName && intercepted.Streams[j].ClientStreams == svcDesc.Streams[j].ClientStreams && intercepted.Streams[j].ServerStreams == svcDesc.Streams[j].ServerStreams
+//@   loop loop#2 invariant[C16] s1: forall j int :: 0 <= j && j <= rangeindex#2 ==> isfunc(intercepted.Streams[j].Handler, "InterceptServer.field:Handler#2")
+//@   loop loop#2 invariant[C16] s2: forall j int :: 0 <= j && j <= rangeindex#2 ==> *binding(intercepted.Streams[j].Handler, 0, "*grpc.StreamServerInterceptor") == streamInt$entry
+//@   loop loop#2 invariant[C16] s3: forall j int :: 0 <= j && j <= rangeindex#2 ==> *binding(intercepted.Streams[j].Handler, 2, "*grpc.StreamHandler") == svcDesc.Streams[j].Handler
+//@   loop loop#2 invariant[C16] s4: forall j int :: 0 <= j && j <= rangeindex#2 ==> (*binding(intercepted.Streams[j].Handler, 1, "**grpc.StreamServerInfo")).FullMethod == fmt_path2(svcDesc.ServiceName, svcDesc.Streams[j].StreamName) && (*binding(intercepted.Streams[j].Handler, 1, "**grpc.StreamServerInfo")).IsClientStream == svcDesc.Streams[j].ClientStreams && (*binding(intercepted.Streams[j].Handler, 1, "**grpc.StreamServerInfo")).IsServerStream == svcDesc.Streams[j].ServerStreams
+//@   ensures[C16] every_stream_wrapped: streamInt$entry != nil ==> len(result.Streams) == len(svcDesc.Streams) && (forall j int :: 0 <= j && j < len(svcDesc.Streams) ==> result.Streams[j].StreamName == svcDesc.Streams[j].StreamName && result.Streams[j].ClientStreams == svcDesc.Streams[j].ClientStreams && result.Streams[j].ServerStreams == svcDesc.Streams[j].ServerStreams && stream_wrapped(result.Streams[j].Handler, streamInt$entry, svcDesc.Streams[j].Handler, fmt_path2(svcDesc.ServiceName, svcDesc.Streams[j].StreamName), svcDesc.Streams[j].ClientStreams, svcDesc.Streams[j].ServerStreams))
+//@   ensures[C16] every_unary_method_wrapped: unaryInt$entry != nil ==> len(result.Methods) == len(svcDesc.Methods) && (forall j int :: 0 <= j && j < len(svcDesc.Methods) ==> result.Methods[j].MethodName == svcDesc.Methods[j].MethodName && unary_wrapped(result.Methods[j].Handler, unaryInt$entry, svcDesc.Methods[j].Handler))
+//@   modifies nothing
+
+// The wrappers InterceptServer installs. Each is verified as its own unit; its
+// free variables are the captured variables of InterceptServer.
+//
+//@ closure InterceptServer.field:Handler#1
+//@   ensures[C16] original_handler_called_exactly_once: calls("var:origHandler") == 1 && result0 == lastresult("var:origHandler", 0) && result1 == lastresult("var:origHandler", 1)
+//@   assert_call[C16] var:origHandler : same_server_context_decoder: arg0 == srv && arg1 == ctx && arg2 == dec
+//@   assert_call[C16] var:origHandler : decorating_interceptor_alone: interceptor == nil ==> arg3 == unaryInt
+//@   assert_call[C16] var:origHandler : combined_with_transport_interceptor: interceptor != nil ==> isfunc(arg3, "InterceptServer.field:Handler#1.combinedInterceptor") && *binding(arg3, 0, "*grpc.UnaryServerInterceptor") == unaryInt && *binding(arg3, 1, "*grpc.UnaryServerInterceptor") == interceptor
+//@   modifies everything
+//
+//@ closure InterceptServer.field:Handler#1.combinedInterceptor
+//@   ensures[C16] transport_interceptor_first_and_once: calls("var:interceptor") == 1 && !called("var:unaryInt") && resp == lastresult("var:interceptor", 0) && err == lastresult("var:interceptor", 1)
+//@   assert_call[C16] var:interceptor : request_unchanged: arg0 == ctx && arg1 == req && arg2 == info
+//@   assert_call[C16] var:interceptor : continues_with_decorating_interceptor: isfunc(arg3, "InterceptServer.field:Handler#1.combinedInterceptor.h") && *binding(arg3, 0, "*grpc.UnaryServerInterceptor") == unaryInt && *binding(arg3, 1, "**grpc.UnaryServerInfo") == info && *binding(arg3, 2, "*grpc.UnaryHandler") == handler
+//@   modifies everything
+//
+//@ closure InterceptServer.field:Handler#1.combinedInterceptor.h
+//@   ensures[C16] decorating_interceptor_next_and_once: calls("var:unaryInt") == 1 && result0 == lastresult("var:unaryInt", 0) && result1 == lastresult("var:unaryInt", 1)
+//@   assert_call[C16] var:unaryInt : onward_to_the_real_handler: arg0 == ctx && arg1 == req && arg2 == info && arg3 == handler
+//@   modifies everything
+//
+//@ closure InterceptServer.field:Handler#2
+//@   ensures[C16] stream_interceptor_called_exactly_once: calls("var:streamInt") == 1 && result == lastresult("var:streamInt", 0)
+//@   assert_call[C16] var:streamInt : with_info_and_original_handler: arg0 == srv && arg1 == stream && arg2 == info && arg3 == origHandler
+//@   modifies everything
+//
+//@ func WithInterceptor
+//@   ensures[C16] no_interceptors_returns_registry: unaryInt == nil && streamInt == nil ==> result == reg
+//@   ensures[C16] otherwise_intercepting_registry: !(unaryInt == nil && streamInt == nil) ==> typeis(result, "*interceptingRegistry") && unbox(result, "*interceptingRegistry").reg == reg && unbox(result, "*interceptingRegistry").unaryInt == unaryInt && unbox(result, "*interceptingRegistry").streamInt == streamInt
+//@   modifies nothing
+//
+//@ func (*interceptingRegistry).RegisterService
+//@   ensures[C16] registers_the_intercepted_description_once: calls("grpc.ServiceRegistrar.RegisterService") == 1 && calls(InterceptServer) == 1
+//@   assert_call[C16] InterceptServer : with_the_registrys_interceptors: arg0 == desc && arg1 == r.unaryInt && arg2 == r.streamInt
+//@   assert_call[C16] grpc.ServiceRegistrar.RegisterService : delegates: arg0 == r.reg && arg1 == lastresult(InterceptServer) && arg2 == srv
+//@   modifies everything
